@@ -10,7 +10,7 @@ for PEP 695 forms, and `patches` says how to turn CPython's tree of `twin` into 
 Excluded from random output (documented stricter-than-CPython cases and known-finding shapes, each probed
 deterministically elsewhere): duplicate parameter names, repeated keyword arguments, tab after space in
 indentation; identifiers that are not NFKC-stable; a logical line starting with the NAME `match`/`case`
-that has a later top-level colon; `<number>.<keyword>`; `x[*a]`;
+that has a later top-level colon; `<number>.<keyword>`;
 triple-quoted strings inside f-string fields; (opt `no_pep695_after_semi`) type alias not at
 line start.
 """
@@ -557,7 +557,7 @@ class Gen:
         s = (self.O() + "," + self.O()).join(items)
         if self.p(0.15):
             if n == 1 and self.p(0.5):
-                s = "*" + self.expr(d, 6) + ","       # `x[*a,]` (the comma-less form is a known finding)
+                s = "*" + self.expr(d, 6) + ("," if self.p(0.5) else "")       # `x[*a,]`, `x[*a]`: both the 1-tuple
             else:
                 s += ","
         return s
